@@ -4,6 +4,7 @@ R16.1 positional-to-keyword normalisation: consistent offsets, defaults filled o
       the binding lives in a per-call dict;  R16.2 canonical serialisation (sorted keys, recursively) of the binding
       minus ignored names;  R16.3 sub-cache name = method name [+ .version];  R16.4 control keywords routed;
 R16.5 the in-memory cache decides presence by key membership (a stored None is a hit).
+R16.9 a test on the kind of a parameter only sets *args / **kwargs aside;  R16.1 also: no binding container from a memoised function;  R16.10 / R16.11 imported from C15 / C14.
 """
 from __future__ import annotations
 
